@@ -3,6 +3,7 @@ import props_solver as ps
 import props_wiring as pw
 import props_profiles as pp
 import props_cache as pc
+import props_state as pst
 
 CHECKS = {
     "C01": ps.check_C01,
@@ -16,6 +17,7 @@ CHECKS = {
     "C09": pp.check_C09,
     "C10": ps.check_C10,
     "C11": ps.check_C11,
+    "C12": pst.check_C12,
     "C13": pw.check_C13,
     "C15": pc.check_C15,
     "C16": pw.check_C16,
